@@ -24,6 +24,22 @@ theorem get_del (fs : Fs) (k q : Path) : get (del fs k) q = if q = k then none e
       · subst hq; simp [hek]
       · simp [hq]
 
+theorem get_rmtree (fs : Fs) (p q : Path) :
+    get (fs.filter (fun e => !(p <+: e.1))) q = if p <+: q then none else get fs q := by
+  induction fs with
+  | nil => simp [get]
+  | cons e r ih =>
+    simp only [List.filter_cons]
+    by_cases hpe : p <+: e.1
+    · simp only [hpe, decide_true, Bool.not_true, Bool.false_eq_true, if_false, ih, get]
+      by_cases hq : q = e.1
+      · subst hq; simp [hpe]
+      · simp [hq]
+    · simp only [hpe, decide_false, Bool.not_false, if_true, get, ih]
+      by_cases hq : q = e.1
+      · subst hq; simp [hpe]
+      · simp [hq]
+
 theorem swap_eq_iff (p q k e : Path) (hp : ¬ p <+: k) (hq : ¬ q <+: k) :
     (k = swapKey p q e) ↔ (k = e) := by
   unfold swapKey
@@ -60,6 +76,7 @@ def touches : Op → Path → Prop
   | .append p _, k => k = p
   | .copyFile p _, k => k = p
   | .rename p q, k => p <+: k ∨ q <+: k
+  | .rmtree p, k => p <+: k
 
 /-- **frame**: an operation changes nothing at a path it does not touch -/
 theorem step_frame (fs fs' : Fs) (op : Op) (k : Path) (h : step fs op = some fs')
@@ -90,6 +107,12 @@ theorem step_frame (fs fs' : Fs) (op : Op) (k : Path) (h : step fs op = some fs'
     · split at h <;> cases h
       exact get_moveTree_other fs p q k hk.1 hk.2
     · cases h
+  | rmtree p =>
+    simp only [touches] at hk
+    simp only [step] at h
+    split at h
+    · cases h; simp [get_rmtree, hk]
+    · cases h; rfl
 
 theorem run_frame (ops : List Op) (fs fs' : Fs) (k : Path) (h : run fs ops = some fs')
     (hk : ∀ op ∈ ops, ¬ touches op k) : get fs' k = get fs k := by
@@ -135,6 +158,7 @@ theorem crashOps_touches (ops : List Op) (k : Nat) (cut : Option Nat) :
         | createEmpty p => simp [hk] at hop
         | rename p q => simp [hk] at hop
         | copyFile p b => simp [hk] at hop
+        | rmtree p => simp [hk] at hop
 
 /-- a call ending in an atomic `last` step (not an `append`): a crash is a crash of what precedes it, or the
 complete call -/
@@ -161,11 +185,147 @@ theorem crashOps_snoc (A : List Op) (last : Op) (hl : ∀ p b, last ≠ .append 
         | createEmpty p => rfl
         | rename p q => rfl
         | copyFile p b => rfl
+        | rmtree p => rfl
     · have h3 : ¬ k ≤ A.length := by omega
       simp only [h3, if_false]
       have h4 : (A ++ [last]).length ≤ k := by simp; omega
       rw [List.take_of_length_le h4, List.getElem?_eq_none h4]
       cases cut <;> simp
+
+/-! ### running lists of operations -/
+
+theorem run_append (A B : List Op) (fs : Fs) :
+    run fs (A ++ B) = (run fs A).bind (fun f => run f B) := by
+  induction A generalizing fs with
+  | nil => rfl
+  | cons a r ih =>
+    simp only [List.cons_append, run]
+    cases step fs a with
+    | none => rfl
+    | some f => exact ih f
+
+theorem run_runSome (ops : List Op) (fs x : Fs) (h : run fs ops = some x) : runSome fs ops = (x, true) := by
+  induction ops generalizing fs with
+  | nil => simp [run] at h; subst h; rfl
+  | cons a r ih =>
+    simp only [run] at h
+    simp only [runSome]
+    cases hs : step fs a with
+    | none => rw [hs] at h; cases h
+    | some f => rw [hs] at h; exact ih f h
+
+theorem runSome_false (ops : List Op) (fs : Fs) (h : (runSome fs ops).2 = false) : run fs ops = none := by
+  cases hr : run fs ops with
+  | none => rfl
+  | some x => rw [run_runSome ops fs x hr] at h; cases h
+
+theorem runSome_append_of_run (A B : List Op) (fs f : Fs) (h : run fs A = some f) :
+    runSome fs (A ++ B) = runSome f B := by
+  induction A generalizing fs with
+  | nil => simp [run] at h; subst h; rfl
+  | cons a r ih =>
+    simp only [run] at h
+    simp only [List.cons_append, runSome]
+    cases hs : step fs a with
+    | none => rw [hs] at h; cases h
+    | some g => rw [hs] at h; exact ih g h
+
+/-- `runSome` stops where the first operation fails: its tree is the result of a prefix that runs -/
+theorem runSome_prefix (ops : List Op) (fs : Fs) : ∃ j, run fs (ops.take j) = some (runSome fs ops).1 := by
+  induction ops generalizing fs with
+  | nil => exact ⟨0, rfl⟩
+  | cons a r ih =>
+    simp only [runSome]
+    cases hs : step fs a with
+    | none => exact ⟨0, rfl⟩
+    | some g =>
+      obtain ⟨j, hj⟩ := ih g
+      exact ⟨j + 1, by simp [run, hs, hj]⟩
+
+theorem crashOps_none (ops : List Op) (k : Nat) : crashOps ops k none = ops.take k := by
+  simp [crashOps]
+
+theorem crashOps_length_le (ops : List Op) (k : Nat) (cut : Option Nat) :
+    (crashOps ops k cut).length ≤ (ops.take k).length + 1 := by
+  unfold crashOps
+  simp only [List.length_append]
+  split <;> simp
+
+/-- a crash list that does not run to its end behaves like a shorter crash list that does -/
+theorem runSome_crashOps_exists (L : List Op) (fs : Fs) (k : Nat) (cut : Option Nat) :
+    ∃ k' cut', run fs (crashOps L k' cut') = some (runSome fs (crashOps L k cut)).1 := by
+  obtain ⟨j, hj⟩ := runSome_prefix (crashOps L k cut) fs
+  by_cases hle : j ≤ (L.take k).length
+  · refine ⟨min j k, none, ?_⟩
+    rw [crashOps_none]
+    have : (crashOps L k cut).take j = L.take (min j k) := by
+      unfold crashOps
+      rw [List.take_append_of_le_length hle, List.take_take]
+    rw [this] at hj; exact hj
+  · refine ⟨k, cut, ?_⟩
+    have hlen := crashOps_length_le L k cut
+    have : (crashOps L k cut).take j = crashOps L k cut := List.take_of_length_le (by omega)
+    rw [this] at hj; exact hj
+
+/-- a crash list of a prefix is a crash list of the whole -/
+theorem crashOps_take (A : List Op) (j k : Nat) (cut : Option Nat) :
+    crashOps (A.take j) k cut = crashOps A (min k j) (if k < j then cut else none) := by
+  unfold crashOps
+  by_cases h : k < j
+  · have hm : min k j = k := Nat.min_eq_left (Nat.le_of_lt h)
+    simp only [h, if_true, hm, List.take_take, List.getElem?_take]
+  · have hm : min k j = j := Nat.min_eq_right (by omega)
+    have h1 : (List.take j A)[k]? = none := by simp [List.getElem?_take, h]
+    simp only [h, if_false, hm, List.take_take, h1]
+
+/-- crash points of a concatenation: inside the first part, or the first part complete and a crash point of the
+second -/
+theorem crashOps_append (A B : List Op) (k : Nat) (cut : Option Nat) :
+    crashOps (A ++ B) k cut = if k < A.length then crashOps A k cut else A ++ crashOps B (k - A.length) cut := by
+  unfold crashOps
+  by_cases h : k < A.length
+  · simp only [h, if_true]
+    rw [List.take_append_of_le_length (Nat.le_of_lt h), List.getElem?_append_left h]
+  · simp only [h, if_false]
+    have hge : A.length ≤ k := by omega
+    rw [List.take_append, List.take_of_length_le hge, List.getElem?_append_right hge, List.append_assoc]
+
+/-- an interrupted `append` succeeds whenever the complete one would -/
+theorem run_crashOps_of_run (L : List Op) (fs x : Fs) (h : run fs L = some x) (k : Nat) (cut : Option Nat) :
+    ∃ c, run fs (crashOps L k cut) = some c := by
+  induction L generalizing fs k with
+  | nil => exact ⟨fs, by simp [crashOps, run]⟩
+  | cons a r ih =>
+    simp only [run] at h
+    cases hs : step fs a with
+    | none => rw [hs] at h; cases h
+    | some g =>
+      rw [hs] at h
+      cases k with
+      | zero =>
+        unfold crashOps
+        simp only [List.take_zero, List.nil_append, List.getElem?_cons_zero]
+        cases cut with
+        | none => exact ⟨fs, rfl⟩
+        | some c =>
+          cases a with
+          | append p b =>
+            simp only [step] at hs
+            split at hs
+            · rename_i c0 hg
+              exact ⟨set fs p (.file (c0 ++ b.take c)), by simp [run, step, hg]⟩
+            · cases hs
+          | mkdir p => exact ⟨fs, rfl⟩
+          | createEmpty p => exact ⟨fs, rfl⟩
+          | rename p q => exact ⟨fs, rfl⟩
+          | copyFile p b => exact ⟨fs, rfl⟩
+          | rmtree p => exact ⟨fs, rfl⟩
+      | succ k =>
+        obtain ⟨c, hc⟩ := ih g h k
+        refine ⟨c, ?_⟩
+        have : crashOps (a :: r) (k + 1) cut = a :: crashOps r k cut := by
+          simp [crashOps]
+        rw [this]; simp [run, hs, hc]
 
 /-! ### well-formed trees: every entry's parent is a directory -/
 
